@@ -71,7 +71,7 @@ def base_pointer(p, t, depth=0):
     if t[0] == 'ret':
         e = p['events'][t[1]]
         r = rp(e)
-        if r in (SL + 'as_ptr', SL + 'as_mut_ptr') or r in FRP:
+        if r in (SL + 'as_ptr', SL + 'as_mut_ptr') or r in FRP or r == 'alloc::boxed::Box::<T>::into_raw':
             return base_pointer(p, e['args'][0], depth + 1)
         return t
     if t[0] == 'field':
@@ -168,7 +168,7 @@ def check_conversion(run, cx, cfg, trait, meth, N, fn, body):
         for p in ps:
             lens = len_of_arg(p)
             d = divisibility(p, lens, N)
-            forgets = [(k, e) for k, e in call_events(p) if rp(e) == 'core::mem::forget' and e['args'][0] == ('param', 1)]
+            forgets = [(k, e) for k, e in call_events(p) if rp(e) in ('core::mem::forget', 'alloc::boxed::Box::<T>::into_raw') and e['args'][0] == ('param', 1)]
             fromraw = [(k, e) for k, e in call_events(p) if rp(e) == 'alloc::boxed::Box::<T>::from_raw' and base_pointer(p, e['args'][0]) == ('param', 1)]
             # R8: forget(box) must be followed by Box::from_raw on a pointer derived from that box, on every returning path
             if forgets and not [1 for k, e in fromraw if k > forgets[0][0]]:
@@ -202,7 +202,7 @@ def check_conversion(run, cx, cfg, trait, meth, N, fn, body):
         else:
             p = ps[0]
             lens = len_of_arg(p)
-            forgets = [(k, e) for k, e in call_events(p) if rp(e) == 'core::mem::forget' and e['args'][0] == ('param', 1)]
+            forgets = [(k, e) for k, e in call_events(p) if rp(e) in ('core::mem::forget', 'alloc::boxed::Box::<T>::into_raw') and e['args'][0] == ('param', 1)]
             fromraw = [(k, e) for k, e in call_events(p) if rp(e) == 'alloc::boxed::Box::<T>::from_raw' and base_pointer(p, e['args'][0]) == ('param', 1)]
             frp = [(k, e) for k, e in call_events(p) if rp(e) in FRP]
             ok = len(forgets) == 1 and len(fromraw) == 1 and fromraw[0][0] > forgets[0][0] and p['ret'] == ('ret', fromraw[0][0]) and frp
@@ -285,6 +285,30 @@ def check_inplace(run, cx, cfg):
             bad = 'a path reaches the unchecked loop without having established a.len() == b.len(): [%s]' % describe_path(p)[:300]
             break
         loops = range_loops(p)
+        if not loops:
+            # `for (fa, fb) in a.iter_mut().zip(b.iter()) { *fa = f(*fa, *fb) }`: with equal lengths (established above) the zip
+            # visits exactly the positions 0..a.len(); decided with the element-of abstraction
+            from rules.elemof import Den
+            its = iterator_loops(p)
+            den = Den(p)
+            if len(its) == 1 and den.iter_of(its[0]['iter']) == ('zip', ('seq', ('slice', ('param', 1))), ('seq', ('slice', ('param', 2)))):
+                hdr = (its[0]['header'], its[0]['frame'])
+                d = dict(cond_facts(p)).get(('discr', ('ret', its[0]['next'])))
+                if d == ('int', 1, 'isize'):
+                    cm = [(k, e) for k, e in call_events(p) if is_call(e, 'core::ops::function::FnMut', 'call_mut')]
+                    ea, eb = ('elem', ('slice', ('param', 1)), hdr), ('elem', ('slice', ('param', 2)), hdr)
+                    ok = len(cm) == 1 and cm[0][1]['args'][1][0] == 'agg' and [den.of(x) for x in cm[0][1]['args'][1][2]] == [ea, eb]
+                    if ok:
+                        ws = [(loc, v) for loc, v in p['writes'].items() if loc[0][0] == 'P' and not loc[1] and den.of(loc[0][1]) == ea]
+                        ok = len(ws) == 1 and ws[0][1] == ('ret', cm[0][0]) and not [1 for k, e in call_events(p) if rp(e) and 'get_unchecked' in rp(e)]
+                    if not ok:
+                        bad = 'one iteration must be *fa = f(*fa, *fb) for the zipped elements: [%s]' % describe_path(p)[:400]
+                    kinds.add('iter')
+                elif d == ('int', 0, 'isize'):
+                    kinds.add('exit')
+                if bad:
+                    break
+                continue
         if len(loops) != 1 or loops[0]['lo'] != ('int', 0, 'usize') or loops[0]['hi'] not in la:
             bad = 'the loop must run over 0..a.len()'
             break
@@ -328,6 +352,24 @@ def check_inplace(run, cx, cfg):
         kinds = set()
         for p in norm:
             loops = iterator_loops(p)
+            fes = [(k, e) for k, e in call_events(p) if is_call(e, ITER, 'for_each')] if not loops else []
+            if len(fes) == 1 and p['end'] == 'return':
+                # a.iter_mut().for_each(|f| *f = map(*f))
+                e = fes[0][1]
+                src = p['events'][e['args'][0][1]] if e['args'][0][0] == 'ret' else None
+                okf = src is not None and rp(src) == SL + 'iter_mut' and unre(src['args'][0]) == ('param', 1) and len(call_events(p)) == 2
+                cps = returning(cx.closure_paths(e['args'][1], p, [('elem',)])) if okf and e['args'][1][0] == 'agg' else []
+                if okf and len(cps) == 1:
+                    cm = [(k2, e2) for k2, e2 in call_events(cps[0]) if is_call(e2, 'core::ops::function::FnMut', 'call_mut')]
+                    okf = (len(cm) == 1 and len(call_events(cps[0])) == 1 and strip_epoch(cm[0][1]['args'][1]) == ('agg', ('tuple',), (('deref', ('elem',)),))
+                           and cps[0]['writes'].get((('P', ('elem',)), ())) == ('ret', cm[0][0]))
+                else:
+                    okf = False
+                if not okf:
+                    bad = 'must be a.iter_mut().for_each(|f| *f = map(*f)): [%s]' % describe_path(p)[:300]
+                    break
+                kinds.update(('iter', 'exit'))
+                continue
             if len(loops) != 1:
                 bad = 'expected one loop over the slice'
                 break
